@@ -1,6 +1,7 @@
 package main
 
 import (
+	"fmt"
 	"go/token"
 	"go/types"
 	"sort"
@@ -27,6 +28,7 @@ func init() {
 			{"C19-R3", "label before annotation", c19r3},
 			{"C19-R4", "selectors precede the namespace policy for every fallback", c19r4},
 			{"C19-R5", "stripping does not remove what re-insertion reads", c19r5},
+			{"C19-R6", "recorded user overrides are consulted for every template container", c19r6},
 		},
 	})
 }
@@ -462,4 +464,63 @@ func c19r5(c *Ctx) {
 			"stripPod deletes the annotation "+k+" from the pod it hands to reinsertOverrides, which reads exactly that annotation to restore the user's original containers: on a second injection nothing is restored (user containers patched by a template are lost or reset) and inject(inject(pod)) != inject(pod)")
 	}
 	c.Floor(4)
+}
+
+
+// C19-R6: reapplyOverwrittenContainers restores, after the templates ran, what the user had specified for containers the
+// templates also define. On a re-injected pod the user's original is no longer in the pod spec: it is recorded in the
+// ProxyOverrides annotation (existingOverrides). For every template container (both loops) every pass therefore looks the
+// container up in existingOverrides; a pass that can skip the container BEFORE that lookup (e.g. because the status
+// annotation lists it as injected) resets the user's proxy image / resources / security context on the second injection.
+func c19r6(c *Ctx) {
+	p := c.P
+	fn := p.Func(pkgInject, "", "reapplyOverwrittenContainers")
+	find := p.FuncObj(pkgInject, "", "FindContainer")
+	// lookups in the recorded overrides: FindContainer(name, existingOverrides.<X>)
+	isOverrideLookup := func(ins ssa.Instruction) bool {
+		call, ok := ins.(*ssa.Call)
+		if !ok || !isCallTo(call, find) || len(call.Call.Args) < 2 {
+			return false
+		}
+		fv := fieldOfLoad(call.Call.Args[1])
+		if fv == nil {
+			return false
+		}
+		// the field belongs to the local holding the parsed ProxyOverrides annotation
+		if u, ok := call.Call.Args[1].(*ssa.UnOp); ok {
+			if fa, ok := u.X.(*ssa.FieldAddr); ok {
+				if a, ok := fa.X.(*ssa.Alloc); ok {
+					return a.Comment == "existingOverrides"
+				}
+			}
+		}
+		return false
+	}
+	n := 0
+	for _, l := range rangeLoops(fn) {
+		if l.Header == nil || l.Body == nil {
+			continue
+		}
+		has := false
+		for b := range loopMembers(fn, l.Header) {
+			for _, ins := range b.Instrs {
+				if isOverrideLookup(ins) {
+					has = true
+				}
+			}
+		}
+		if !has {
+			continue
+		}
+		n++
+		bad, found := pathAvoidingE(l.Body, nil, isOverrideLookup, nil, nil, l.Header)
+		pos := fn.Pos()
+		if bad != nil {
+			pos = bad.Pos()
+		}
+		c.Check(fmt.Sprintf("every pass over a template container consults the recorded overrides (loop #%d)", n), pos, !found,
+			"a pass of this loop can move on to the next template container without looking it up in the ProxyOverrides annotation: on a pod that was injected before, the container is listed in the status annotation, is skipped, and the user's overrides (proxy image, resources, runAsUser, args) are replaced by the template defaults - inject(inject(pod)) != inject(pod)")
+	}
+	c.Check("loops consulting the recorded overrides found", fn.Pos(), n >= 2, "expected the container and the init-container loop")
+	c.Floor(3)
 }
